@@ -19,7 +19,7 @@ from vlib.runner import Result, hyp_settings
 ID = "C07"
 LEVEL = "exploration"
 RULE = (
-    "(b) Hypothesis draws a program from the typed grammar (core profile, plus a device-rich profile) and a re-layout: "
+    "(b) Hypothesis draws a program from the typed grammar (core profile, plus a device-rich profile; one in four is a type-flow scenario script of C02, whose helpers are re-parsed per call signature) and a re-layout: "
     "indent unit 1-8 spaces or tab per block, blank lines (empty/whitespace), comment lines at the block's column, deeper, "
     "shallower and column 0, trailing comments on any line incl. block headers, trailing whitespace, compact or spacey token "
     "spacing; the variant is first checked to be the same Python program (ast.dump equality), then transpiled: the outcome "
@@ -371,10 +371,18 @@ def run_shard(name, seed, tier, what, n):
         @hyp_settings(n, phases=(Phase.generate,))
         @given(st.data())
         def prop(data):
-            prog = data.draw(gs.program_strategy(PROFILE))
-            nodes = prog["nodes"]
-            if data.draw(st.booleans()):
-                nodes = with_devices(data.draw, nodes)
+            if data.draw(st.integers(0, 3)) == 0:
+                # type-flow scenario scripts (helpers re-specialised per call signature, hoisted declarations): the transpiler re-reads stored source text
+                from checks import c02
+
+                tf = data.draw(c02.program(frozenset(c02.OPEN_CLASSES)))
+                nodes = gs.lines_to_nodes(tf["src"].rstrip("\n").split("\n"))
+                r.count("layout_of_typeflow_script")
+            else:
+                prog = data.draw(gs.program_strategy(PROFILE))
+                nodes = prog["nodes"]
+                if data.draw(st.booleans()):
+                    nodes = with_devices(data.draw, nodes)
             base = gs.render(nodes)
             variant, dims = gl.relayout(data.draw, nodes, **layout_kwargs())
             if not same_python(base, variant):
